@@ -52,6 +52,9 @@ def gen_config(rng, i, tier="quick"):
         9: dict(fe="joint", nser=2, K=2, limit=3, beta=0.5, W=2),
         10: dict(fe="single", K=3, limit=8, m=5, beta=2.0, n_regimes=4),
         11: dict(fe="joint", nser=6, K=3, limit=3, W=3),
+        14: dict(fe="joint", nser=3, K=2, limit=3, W=3, exactW=True, beta=2.0, scalar_beta=True),
+        15: dict(fe="joint", nser=4, K=3, limit=2, W=2, exactW=True, beta=0.5, scalar_beta=True, exact_first=True),
+        16: dict(fe="joint", nser=2, K=2, limit=3, W=4, exactW=True, beta=5.0, scalar_beta=True),
     }.get(i, {})
     c = {"id": i}
     c["fe"] = forced.get("fe", rng.choice(["single", "single", "joint"]))
@@ -71,7 +74,7 @@ def gen_config(rng, i, tier="quick"):
     base = rng.randint(40, 110 if tier == "quick" else 260)
     lens = []
     for s in range(nser):
-        if forced.get("exactW") and s == 1:
+        if forced.get("exactW") and s == (0 if forced.get("exact_first") else 1):
             lens.append(W)                                   # a series of exactly W rows
         else:
             lens.append(max(W, base // nser + rng.randint(0, 25)))
@@ -90,6 +93,8 @@ def gen_config(rng, i, tier="quick"):
         rng.choice(["float", "vector", "vector_var"])
     if i in (8, 10, 13, 17):
         c["beta_form"] = "vector_var"
+    if forced.get("scalar_beta"):
+        c["beta_form"] = "float"
     return c
 
 
